@@ -2,11 +2,550 @@
 //! messages, and lying filter-hash / check-point vectors.
 
 use ckb_network::bytes::Bytes;
-use ckb_types::{packed, prelude::*};
+use ckb_types::{
+    core::{BlockBuilder, EpochNumberWithFraction, HeaderView},
+    packed::{self, Byte32},
+    prelude::*,
+    U256,
+};
 
 use crate::client::Proto;
+use crate::entropy::{mix, Rng};
 use crate::plan::{InjectSpec, MutSpec};
+use crate::server::{self, lc_msg, View};
 use crate::sim::{Kind, Sim, Tag};
+
+fn crafted(kind: Kind, note: &str) -> Tag {
+    Tag {
+        kind,
+        honest: false,
+        canonical: None,
+        request: None,
+        layout: None,
+        note: note.to_string(),
+    }
+}
+
+pub fn u256_max() -> U256 {
+    U256::from_le_bytes(&[0xffu8; 32])
+}
+
+fn pick_u64(rng: &mut Rng) -> u64 {
+    match rng.below(9) {
+        0 => 0,
+        1 => 1,
+        2 => u32::MAX as u64,
+        3 => u64::MAX,
+        4 => u64::MAX - 1,
+        5 => rng.below(300),
+        6 => 1u64 << 63,
+        7 => (u32::MAX as u64) + 1,
+        _ => rng.next_u64(),
+    }
+}
+
+fn pick_u256(rng: &mut Rng) -> U256 {
+    match rng.below(6) {
+        0 => U256::zero(),
+        1 => U256::one(),
+        2 => u256_max(),
+        3 => &u256_max() - 1u32,
+        4 => U256::from(u64::MAX),
+        _ => {
+            let mut b = [0u8; 32];
+            rng.fill(&mut b);
+            U256::from_le_bytes(&b)
+        }
+    }
+}
+
+fn pick_epoch(rng: &mut Rng) -> u64 {
+    // raw epoch field: number(24) | index(16) | length(16)
+    match rng.below(7) {
+        0 => 0,
+        1 => EpochNumberWithFraction::new_unchecked(rng.below(10), 5, 0).full_value(),
+        2 => EpochNumberWithFraction::new_unchecked(rng.below(10), 9, 3).full_value(),
+        3 => u64::MAX,
+        4 => EpochNumberWithFraction::new_unchecked(0xff_ffff, 0xffff, 0xffff).full_value(),
+        5 => EpochNumberWithFraction::new_unchecked(rng.below(5), 0, 1).full_value(),
+        _ => EpochNumberWithFraction::new_unchecked(rng.below(50), rng.below(20), rng.range(1, 30))
+            .full_value(),
+    }
+}
+
+fn pick_compact(rng: &mut Rng) -> u32 {
+    match rng.below(6) {
+        0 => 0,
+        1 => 1,
+        2 => u32::MAX,
+        3 => 0x2080_0000,
+        4 => 0x0100_0000,
+        _ => rng.next_u64() as u32,
+    }
+}
+
+fn random_digest(rng: &mut Rng) -> packed::HeaderDigest {
+    let mut h = [0u8; 32];
+    rng.fill(&mut h);
+    packed::HeaderDigest::new_builder()
+        .children_hash(h.pack())
+        .total_difficulty(pick_u256(rng).pack())
+        .start_number(pick_u64(rng).pack())
+        .end_number(pick_u64(rng).pack())
+        .start_epoch(pick_epoch(rng).pack())
+        .end_epoch(pick_epoch(rng).pack())
+        .start_timestamp(pick_u64(rng).pack())
+        .end_timestamp(pick_u64(rng).pack())
+        .start_compact_target(pick_compact(rng).pack())
+        .end_compact_target(pick_compact(rng).pack())
+        .build()
+}
+
+/// A verifiable header that passes the early checks (dummy PoW, extension commits to the
+/// supplied parent chain root, extra hash matches) but carries boundary values.
+pub fn crafted_verifiable(sim: &Sim, rng: &mut Rng, parent: Option<&HeaderView>) -> packed::VerifiableHeader {
+    let root = random_digest(rng);
+    let ext: packed::Bytes = Bytes::from(root.calc_mmr_hash().as_slice().to_vec()).pack();
+    let number = match parent {
+        Some(p) => p.number().wrapping_add(1),
+        None => pick_u64(rng),
+    };
+    let epoch = match parent {
+        Some(p) if rng.chance(2, 3) => {
+            let e = p.epoch();
+            if e.index() + 1 >= e.length() {
+                EpochNumberWithFraction::new_unchecked(e.number() + 1, 0, e.length().max(1)).full_value()
+            } else {
+                EpochNumberWithFraction::new_unchecked(e.number(), e.index() + 1, e.length()).full_value()
+            }
+        }
+        _ => pick_epoch(rng),
+    };
+    let parent_hash = parent.map(|p| p.hash()).unwrap_or_else(|| {
+        let mut h = [0u8; 32];
+        rng.fill(&mut h);
+        h.pack()
+    });
+    let header = raw_header(
+        number,
+        epoch,
+        pick_compact(rng),
+        crate::sim::abs_now(sim.now),
+        parent_hash,
+        &ext,
+    );
+    packed::VerifiableHeader::new_builder()
+        .header(header)
+        .uncles_hash(Byte32::zero())
+        .extension(packed::BytesOpt::new_builder().set(Some(ext)).build())
+        .parent_chain_root(root)
+        .build()
+}
+
+/// A header assembled from raw fields (the view builders refuse malformed epochs).
+pub fn raw_header(
+    number: u64,
+    epoch: u64,
+    compact: u32,
+    timestamp: u64,
+    parent_hash: Byte32,
+    extension: &packed::Bytes,
+) -> packed::Header {
+    let extra = ckb_types::core::ExtraHashView::new(
+        Byte32::zero(),
+        Some(extension.calc_raw_data_hash()),
+    )
+    .extra_hash();
+    let raw = packed::RawHeader::new_builder()
+        .compact_target(compact.pack())
+        .timestamp(timestamp.pack())
+        .number(number.pack())
+        .epoch(epoch.pack())
+        .parent_hash(parent_hash)
+        .extra_hash(extra)
+        .build();
+    packed::Header::new_builder().raw(raw).build()
+}
+
+fn flip_bytes(rng: &mut Rng, data: &Bytes) -> Bytes {
+    let mut v = data.to_vec();
+    match rng.below(5) {
+        0 => {
+            // truncate
+            let n = rng.usize_below(v.len() + 1);
+            v.truncate(n);
+        }
+        1 => {
+            // extend
+            let n = rng.range(1, 40) as usize;
+            let mut e = vec![0u8; n];
+            rng.fill(&mut e);
+            v.extend_from_slice(&e);
+        }
+        2 => {
+            // flip a few bytes
+            for _ in 0..rng.range(1, 4) {
+                if !v.is_empty() {
+                    let i = rng.usize_below(v.len());
+                    v[i] ^= 1 << rng.below(8);
+                }
+            }
+        }
+        3 => {
+            // overwrite a 4-byte little-endian length / offset field
+            if v.len() >= 8 {
+                let i = (rng.usize_below(v.len() / 4)) * 4;
+                let val: u32 = match rng.below(4) {
+                    0 => 0,
+                    1 => u32::MAX,
+                    2 => v.len() as u32,
+                    _ => rng.next_u64() as u32,
+                };
+                v[i..i + 4].copy_from_slice(&val.to_le_bytes());
+            }
+        }
+        _ => {
+            // set an 8-byte field to an extreme
+            if v.len() >= 16 {
+                let i = rng.usize_below(v.len() - 8);
+                let val = pick_u64(rng);
+                v[i..i + 8].copy_from_slice(&val.to_le_bytes());
+            }
+        }
+    }
+    Bytes::from(v)
+}
+
+/// An honest message of a random kind, as it would look for the current state of the world.
+fn honest_sample(sim: &Sim, p: usize, rng: &mut Rng) -> (Proto, Bytes, Kind) {
+    let view = sim.peers[p].view;
+    let cfg = sim.peer_cfg(p);
+    let (mf, tipn) = match sim.client.as_ref() {
+        Some(c) => {
+            let (_, tip) = c.storage.get_last_state();
+            (
+                c.storage.get_min_filtered_block_number(),
+                Unpack::<u64>::unpack(&tip.raw().number()),
+            )
+        }
+        None => (0, 0),
+    };
+    match rng.below(8) {
+        0 => (
+            Proto::LightClient,
+            lc_msg(server::send_last_state(&sim.world, view)).as_bytes(),
+            Kind::SendLastState,
+        ),
+        1 => {
+            // a proof for a synthetic request
+            let start = rng.below(view.height.max(1));
+            let req = packed::GetLastStateProof::new_builder()
+                .last_hash(sim.world.block(view.branch, view.height).hash())
+                .start_hash(sim.world.block(view.branch, start).hash())
+                .start_number(start.pack())
+                .last_n_blocks(sim.plan.knobs.last_n.pack())
+                .difficulty_boundary(sim.world.td(view.branch, view.height.saturating_sub(1)).pack())
+                .build();
+            match server::last_state_proof(&sim.world, view, &req) {
+                server::ProofAnswer::Reply(m, _) => {
+                    (Proto::LightClient, lc_msg(m).as_bytes(), Kind::SendLastStateProof)
+                }
+                _ => (
+                    Proto::LightClient,
+                    lc_msg(server::send_last_state(&sim.world, view)).as_bytes(),
+                    Kind::SendLastState,
+                ),
+            }
+        }
+        2 => {
+            let start = if rng.chance(2, 3) { mf + 1 } else { rng.below(view.height + 2) };
+            match server::block_filters(&sim.world, view, &cfg, start) {
+                Some(m) => (Proto::Filter, server::filter_msg(m).as_bytes(), Kind::BlockFilters),
+                None => (Proto::Filter, Bytes::new(), Kind::BlockFilters),
+            }
+        }
+        3 => {
+            let start = rng.below(view.height + 2);
+            match server::block_filter_hashes(&sim.world, view, &cfg, start) {
+                Some(m) => (Proto::Filter, server::filter_msg(m).as_bytes(), Kind::BlockFilterHashes),
+                None => (Proto::Filter, Bytes::new(), Kind::BlockFilterHashes),
+            }
+        }
+        4 => {
+            let i = sim.plan.knobs.check_point_interval;
+            let start = rng.below(view.height / i.max(1) + 2) * i;
+            match server::block_filter_check_points(&sim.world, view, &cfg, start) {
+                Some(m) => (
+                    Proto::Filter,
+                    server::filter_msg(m).as_bytes(),
+                    Kind::BlockFilterCheckPoints,
+                ),
+                None => (Proto::Filter, Bytes::new(), Kind::BlockFilterCheckPoints),
+            }
+        }
+        5 => {
+            let n = rng.below(view.height + 1);
+            let m = server::send_block(&sim.world, &sim.world.block(view.branch, n).hash()).unwrap();
+            (Proto::Sync, m.as_bytes(), Kind::SendBlock)
+        }
+        6 => {
+            let n = rng.below(view.height.max(1));
+            let req = packed::GetBlocksProof::new_builder()
+                .last_hash(sim.world.block(view.branch, tipn.min(view.height)).hash())
+                .block_hashes(vec![sim.world.block(view.branch, n).hash()].pack())
+                .build();
+            match server::blocks_proof(&sim.world, view, &req, rng.chance(1, 2)) {
+                server::LcAnswer::Reply(m) => (Proto::LightClient, m.as_bytes(), Kind::SendBlocksProof),
+                _ => (Proto::LightClient, Bytes::new(), Kind::SendBlocksProof),
+            }
+        }
+        _ => {
+            let req = packed::GetTransactionsProof::new_builder()
+                .last_hash(sim.world.block(view.branch, tipn.min(view.height)).hash())
+                .tx_hashes(
+                    vec![sim.world.block(view.branch, rng.below(view.height + 1)).view.transactions()[0].hash()]
+                        .pack(),
+                )
+                .build();
+            match server::transactions_proof(&sim.world, view, &req, rng.chance(1, 2)) {
+                server::LcAnswer::Reply(m) => {
+                    (Proto::LightClient, m.as_bytes(), Kind::SendTransactionsProof)
+                }
+                _ => (Proto::LightClient, Bytes::new(), Kind::SendTransactionsProof),
+            }
+        }
+    }
+}
+
+fn random_hashes(rng: &mut Rng, n: usize) -> Vec<Byte32> {
+    (0..n)
+        .map(|_| {
+            let mut h = [0u8; 32];
+            rng.fill(&mut h);
+            h.pack()
+        })
+        .collect()
+}
+
+/// Crafted / hostile messages (C10): chosen by `spec.kind`, all entropy from `spec.seed`.
+pub fn inject(sim: &mut Sim, p: usize, spec: &InjectSpec) -> Vec<(Proto, Bytes, Tag)> {
+    let mut rng = Rng::new(mix(&[spec.seed, spec.kind as u64, 0x10]));
+    let mut out = Vec::new();
+    let (mf, fin_cp) = match sim.client.as_ref() {
+        Some(c) => (
+            c.storage.get_min_filtered_block_number(),
+            c.storage.get_max_check_point_index() as u64,
+        ),
+        None => (0, 0),
+    };
+    let interval = sim.plan.knobs.check_point_interval;
+    match spec.kind % 8 {
+        0 => {
+            // random bytes on a random protocol
+            let n = rng.range(0, 120) as usize;
+            let mut v = vec![0u8; n];
+            rng.fill(&mut v);
+            let proto = *rng.pick(&[Proto::LightClient, Proto::Filter, Proto::Sync, Proto::RelayV2, Proto::RelayV3]);
+            out.push((proto, Bytes::from(v), crafted(Kind::Injected, "random bytes")));
+        }
+        1 => {
+            // byte-level damage of an honest message
+            let (proto, data, kind) = honest_sample(sim, p, &mut rng);
+            let d = flip_bytes(&mut rng, &data);
+            out.push((proto, d, crafted(kind, "damaged honest message")));
+        }
+        2 => {
+            // an honest message delivered out of context (nobody asked)
+            let (proto, data, kind) = honest_sample(sim, p, &mut rng);
+            let mut t = crafted(kind, "unsolicited honest message");
+            t.canonical = Some(data.clone());
+            out.push((proto, data, t));
+        }
+        3 => {
+            // a self-consistent last state with boundary values
+            let vh = crafted_verifiable(sim, &mut rng, None);
+            sim.peers[p].fake_tip = Some(vh.clone());
+            let m = lc_msg(packed::SendLastState::new_builder().last_header(vh).build());
+            out.push((Proto::LightClient, m.as_bytes(), crafted(Kind::SendLastState, "crafted last state")));
+        }
+        4 => {
+            // filter-protocol messages aligned with the client's progress, extreme numbers
+            let start = match rng.below(5) {
+                0 => mf + 1,
+                1 => mf,
+                2 => u64::MAX,
+                3 => interval * fin_cp + rng.below(3),
+                _ => pick_u64(&mut rng),
+            };
+            let n = rng.range(0, 6) as usize;
+            let m = match rng.below(3) {
+                0 => {
+                    let nf = if rng.chance(3, 4) { n } else { rng.range(0, 6) as usize };
+                    let filters: Vec<packed::Bytes> = (0..nf)
+                        .map(|_| {
+                            let mut d = vec![0u8; rng.range(0, 24) as usize];
+                            rng.fill(&mut d);
+                            Bytes::from(d).pack()
+                        })
+                        .collect();
+                    server::filter_msg(
+                        packed::BlockFilters::new_builder()
+                            .start_number(start.pack())
+                            .block_hashes(random_hashes(&mut rng, n).pack())
+                            .filters(filters.pack())
+                            .build(),
+                    )
+                }
+                1 => server::filter_msg(
+                    packed::BlockFilterHashes::new_builder()
+                        .start_number(start.pack())
+                        .parent_block_filter_hash(random_hashes(&mut rng, 1)[0].clone())
+                        .block_filter_hashes(random_hashes(&mut rng, n).pack())
+                        .build(),
+                ),
+                _ => server::filter_msg(
+                    packed::BlockFilterCheckPoints::new_builder()
+                        .start_number(start.pack())
+                        .block_filter_hashes(random_hashes(&mut rng, n).pack())
+                        .build(),
+                ),
+            };
+            out.push((Proto::Filter, m.as_bytes(), crafted(Kind::Injected, "crafted filter message")));
+        }
+        5 => {
+            // true filters / hashes of the chain, but pushed at the client's exact position
+            let view = sim.peers[p].view;
+            let cfg = sim.peer_cfg(p);
+            let start = mf + 1;
+            if rng.chance(1, 2) {
+                if let Some(m) = server::block_filters(&sim.world, view, &cfg, start) {
+                    out.push((
+                        Proto::Filter,
+                        server::filter_msg(m).as_bytes(),
+                        crafted(Kind::BlockFilters, "pushed filters at min_filtered+1"),
+                    ));
+                }
+            } else {
+                let s2 = rng.below(view.height + 2);
+                if let Some(m) = server::block_filter_hashes(&sim.world, view, &cfg, s2) {
+                    out.push((
+                        Proto::Filter,
+                        server::filter_msg(m).as_bytes(),
+                        crafted(Kind::BlockFilterHashes, "pushed filter hashes"),
+                    ));
+                }
+            }
+        }
+        6 => {
+            // proofs with crafted headers / digests
+            let vh = crafted_verifiable(sim, &mut rng, None);
+            let n = rng.range(0, 3) as usize;
+            let headers: Vec<packed::VerifiableHeader> =
+                (0..n).map(|_| crafted_verifiable(sim, &mut rng, None)).collect();
+            let proof: Vec<packed::HeaderDigest> = (0..rng.range(0, 3)).map(|_| random_digest(&mut rng)).collect();
+            let m = match rng.below(3) {
+                0 => lc_msg(
+                    packed::SendLastStateProof::new_builder()
+                        .last_header(vh)
+                        .proof(proof.pack())
+                        .headers(headers.pack())
+                        .build(),
+                ),
+                1 => lc_msg(
+                    packed::SendBlocksProof::new_builder()
+                        .last_header(vh)
+                        .proof(proof.pack())
+                        .headers(headers.iter().map(|h| h.header()).collect::<Vec<_>>().pack())
+                        .missing_block_hashes({ let k = rng.range(0, 2) as usize; random_hashes(&mut rng, k) }.pack())
+                        .build(),
+                ),
+                _ => lc_msg(
+                    packed::SendTransactionsProof::new_builder()
+                        .last_header(vh)
+                        .proof(proof.pack())
+                        .missing_tx_hashes({ let k = rng.range(0, 2) as usize; random_hashes(&mut rng, k) }.pack())
+                        .build(),
+                ),
+            };
+            out.push((Proto::LightClient, m.as_bytes(), crafted(Kind::Injected, "crafted proof")));
+        }
+        _ => {
+            // relay / sync messages the client is not supposed to get
+            let m = match rng.below(3) {
+                0 => packed::RelayMessage::new_builder()
+                    .set(
+                        packed::GetRelayTransactions::new_builder()
+                            .tx_hashes({ let k = rng.range(0, 3) as usize; random_hashes(&mut rng, k) }.pack())
+                            .build(),
+                    )
+                    .build()
+                    .as_bytes(),
+                1 => packed::SyncMessage::new_builder()
+                    .set(packed::InIBD::new_builder().build())
+                    .build()
+                    .as_bytes(),
+                _ => packed::SyncMessage::new_builder()
+                    .set(
+                        packed::GetBlocks::new_builder()
+                            .block_hashes(random_hashes(&mut rng, 2).pack())
+                            .build(),
+                    )
+                    .build()
+                    .as_bytes(),
+            };
+            let proto = if rng.chance(1, 2) { Proto::Sync } else { *rng.pick(&[Proto::RelayV2, Proto::RelayV3]) };
+            out.push((proto, m, crafted(Kind::Injected, "foreign protocol message")));
+        }
+    }
+    out
+}
+
+/// A deviating peer answers the client's own GetLastStateProof for a header it made up.
+pub fn crafted_proof_answer(
+    sim: &mut Sim,
+    p: usize,
+    req: &packed::GetLastStateProof,
+) -> Option<(packed::LightClientMessage, Tag)> {
+    let last = sim.peers[p].fake_tip.clone()?;
+    if last.header().calc_header_hash() != req.last_hash() {
+        return None;
+    }
+    let mut rng = Rng::new(mix(&[sim.plan.seed, sim.seq, 0xfa4e]));
+    let start: u64 = req.start_number().unpack();
+    // a few shapes: headers around the requested start, strictly increasing numbers or not
+    let n = rng.range(0, 5) as usize;
+    let mut headers = Vec::new();
+    let mut num = match rng.below(3) {
+        0 => start,
+        1 => start.saturating_sub(rng.below(4)),
+        _ => pick_u64(&mut rng),
+    };
+    for _ in 0..n {
+        let mut vh = crafted_verifiable(sim, &mut rng, None);
+        // force the number
+        let hv = vh.header();
+        let h2 = raw_header(
+            num,
+            hv.raw().epoch().unpack(),
+            hv.raw().compact_target().unpack(),
+            hv.raw().timestamp().unpack(),
+            hv.raw().parent_hash(),
+            &vh.extension().to_opt().unwrap(),
+        );
+        vh = vh.as_builder().header(h2).build();
+        headers.push(vh);
+        num = if rng.chance(4, 5) { num.wrapping_add(1) } else { pick_u64(&mut rng) };
+    }
+    let proof: Vec<packed::HeaderDigest> = (0..rng.range(0, 3)).map(|_| random_digest(&mut rng)).collect();
+    let m = lc_msg(
+        packed::SendLastStateProof::new_builder()
+            .last_header(last)
+            .proof(proof.pack())
+            .headers(headers.pack())
+            .build(),
+    );
+    Some((m, crafted(Kind::SendLastStateProof, "crafted proof for a made-up tip")))
+}
 
 pub fn mutate(
     _sim: &mut Sim,
@@ -17,10 +556,6 @@ pub fn mutate(
     _specs: &[MutSpec],
 ) -> Vec<(Proto, Bytes, Tag)> {
     vec![(proto, data.clone(), tag.clone())]
-}
-
-pub fn inject(_sim: &mut Sim, _p: usize, _spec: &InjectSpec) -> Vec<(Proto, Bytes, Tag)> {
-    Vec::new()
 }
 
 pub fn lie_filters(_sim: &mut Sim, _p: usize, m: packed::BlockFilters) -> packed::BlockFilters {
